@@ -150,6 +150,9 @@ func c11AuxAll() []c11Aux {
 		{"RG", 'Z', []byte("g1\x00")},
 		{"PG", 'Z', []byte("p1\x00")},
 		{"NM", 'C', []byte{1}},
+		// since /repo bfe0bfe the digits of an H value are decoded by bam.decodeHex: both cases, and no digits
+		{"Xh", 'H', []byte("1ae3fF\x00")},
+		{"X0", 'H', []byte("\x00")},
 	}
 }
 
